@@ -50,6 +50,11 @@ inline void installCrumb() {
 #endif
 }
 
+} // namespace hc
+// UBSan-only aborts do not go through the ASan death callback: dump the crumb from UBSan's report hook as well.
+extern "C" __attribute__((weak)) void __ubsan_on_report() { hc::dumpCrumb(); }
+namespace hc {
+
 struct Report {
     std::map<std::string, long long> stat;
     int nViol = 0;
